@@ -228,6 +228,7 @@ func pinMain(args []string) {
 					fp = mkFingerprint(kind, srv, servers[(num(m["srv"])+1)%len(servers)])
 				}
 			}
+			t0 := time.Now()
 			h0 := srv.hits.Load()
 			var rt *pinServer
 			var rt0 int64
@@ -249,8 +250,18 @@ func pinMain(args []string) {
 			ctx, cancel := context.WithTimeout(context.Background(), 5*time.Second)
 			var err error
 			var pan any
-			func() {
-				defer func() { pan = recover() }()
+			hung := false
+			finished := make(chan struct{})
+			go func() {
+				defer close(finished)
+				var e2 error
+				var p2 any
+				defer func() {
+					if !hung {
+						err, pan = e2, p2
+					}
+				}()
+				defer func() { p2 = recover() }()
 				c2 := srv.srv.URL + simpleshell.IOPath
 				if true == m["proxy"] { /* the same server, named so that the process's HTTPS_PROXY applies */
 					c2 = strings.Replace(c2, "127.0.0.1", "c2.example", 1)
@@ -258,8 +269,14 @@ func pinMain(args []string) {
 				if sc, ok := m["scheme"].(string); ok && strings.HasPrefix(c2, "https://") { /* URL schemes are case-insensitive */
 					c2 = sc + c2[len("https"):]
 				}
-				err = simpleshell.Go(ctx, simpleshell.ConnConfig{C2: c2, Fingerprint: fp}, shell)
+				e2 = simpleshell.Go(ctx, simpleshell.ConnConfig{C2: c2, Fingerprint: fp}, shell)
 			}()
+			/* simpleshell.Go's POST itself has no deadline: a watchdog keeps one stuck call from stopping the whole run */
+			select {
+			case <-finished:
+			case <-time.After(20 * time.Second):
+				hung = true
+			}
 			cancel()
 			hitNow := srv.hits.Load() - h0
 			if nil != nested && num(m["srv"]) == num(m["nested"].(map[string]any)["srv"]) && true == nested["hit"] {
@@ -269,11 +286,14 @@ func pinMain(args []string) {
 			if nil != rt {
 				redirHit = rt.hits.Load() > rt0
 			}
-			res := map[string]any{"i": m["i"], "redir_hit": redirHit, "hit": hitNow > 0, "global": globalState(), "fp": hx([]byte(fp)), "proxied": proxied.Load()}
+			res := map[string]any{"i": m["i"], "ms": time.Since(t0).Milliseconds(), "redir_hit": redirHit, "hit": hitNow > 0, "global": globalState(), "fp": hx([]byte(fp)), "proxied": proxied.Load()}
 			if nil != nested {
 				res["nested"] = nested
 			}
 			switch {
+			case hung:
+				res["r"] = "hung"
+				res["cls"] = "hung"
 			case nil != pan:
 				res["r"] = "panic"
 				res["msg"] = fmt.Sprint(pan)
@@ -298,9 +318,10 @@ func pinMain(args []string) {
 		res := call(m)
 		emit(res)
 	})
-	for _, s := range servers {
-		s.srv.Close()
-	}
+	/* httptest.Server.Close waits for every connection that is still active - for ever, when a client of an earlier call never finished its
+	upload (simpleshell.Go's POST has no deadline).  The results are what matters: write them out and leave; the process ends anyway. */
+	out.Flush()
+	os.Exit(0)
 }
 
 
